@@ -328,7 +328,7 @@ func (fb *formulaBuilder) formula(v ssa.Value) BExpr {
 		return bConst(constString(x.Value) == "true")
 	case *ssa.UnOp:
 		if x.Op == token.NOT {
-			return bNot{fb.formula(x.X)}
+			return fb.negFormula(x.X)
 		}
 	case *ssa.Phi:
 		if fb.phiBusy == nil {
@@ -502,11 +502,10 @@ func (fb *formulaBuilder) edgeCond(pred, succ *ssa.BasicBlock) BExpr {
 	rc := fb.reach(pred)
 	last := pred.Instrs[len(pred.Instrs)-1]
 	if ifi, ok := last.(*ssa.If); ok && pred.Succs[0] != pred.Succs[1] {
-		c := fb.formula(ifi.Cond)
 		if pred.Succs[0] == succ {
-			return bAnd{[]BExpr{rc, c}}
+			return bAnd{[]BExpr{rc, fb.formula(ifi.Cond)}}
 		}
-		return bAnd{[]BExpr{rc, bNot{c}}}
+		return bAnd{[]BExpr{rc, fb.negFormula(ifi.Cond)}}
 	}
 	return rc
 }
@@ -666,4 +665,39 @@ func postDominates(b, d *ssa.BasicBlock) bool {
 	}
 	postDomMemo[key] = res
 	return res
+}
+
+// negFormula: the formula of "v is false". For a merged boolean (a result variable of an
+// expanded helper) this is "control came over an edge that carries false" — the disjunction
+// over the edges of (edge taken ∧ value false) — rather than the negation of "came over an edge
+// that carries true": the two agree where exactly one edge is taken, but only the former keeps
+// saying WHICH edge when the surrounding path condition no longer does.
+func (fb *formulaBuilder) negFormula(v ssa.Value) BExpr {
+	v = strip(v)
+	if u, ok := v.(*ssa.UnOp); ok && u.Op == token.NOT {
+		return fb.formula(u.X)
+	}
+	x, ok := v.(*ssa.Phi)
+	if !ok {
+		return bNot{fb.formula(v)}
+	}
+	if fb.phiBusy == nil {
+		fb.phiBusy = map[*ssa.Phi]bool{}
+	}
+	if fb.phiBusy[x] {
+		return bNot{fb.formula(v)}
+	}
+	for i := range x.Edges {
+		if x.Block().Dominates(x.Block().Preds[i]) {
+			return bNot{fb.formula(v)} // loop-carried: formula() reports it
+		}
+	}
+	fb.phiBusy[x] = true
+	defer func() { fb.phiBusy[x] = false }()
+	var alts []BExpr
+	for i, e := range x.Edges {
+		ec := fb.edgeCond(x.Block().Preds[i], x.Block())
+		alts = append(alts, bAnd{[]BExpr{ec, fb.negFormula(e)}})
+	}
+	return bOr{alts}
 }
